@@ -185,6 +185,29 @@ Section Gen.
       + eexists. apply derivable_pt_lim_ln. apply Rdiv_lt_0_compat; lra.
     - reg.
   Qed.
+  (* above the tropopause: constant temperature, exponentially decaying pressure, strictly below the
+     tropopause pressure and strictly decreasing *)
+  Theorem stratosphere (h : R) : htrop < h ->
+    Tg h = Ttrop /\ Pg h = ptrop * exp ((- g0) / (Rg * Ttrop) * (h - htrop)) /\ Pg h < ptrop.
+  Proof. intros Hh. rewrite Tg_eq, Pg_eq. destruct (Rle_dec h htrop) as [Hc | _]; [lra | ].
+    split; [reflexivity | split; [reflexivity | ]].
+    set (x := - g0 / (Rg * Ttrop) * (h - htrop)).
+    assert (Hx : x < 0).
+    { unfold x. replace (- g0 / (Rg * Ttrop) * (h - htrop)) with (- ((g0 / (Rg * Ttrop)) * (h - htrop))) by (field; unfold Ttrop; lra).
+      assert (0 < g0 / (Rg * Ttrop) * (h - htrop)); [ | lra].
+      apply Rmult_lt_0_compat; [ apply Rdiv_lt_0_compat; [lra | apply Rmult_lt_0_compat; unfold Ttrop; lra] | lra]. }
+    pose proof ptrop_pos. assert (exp x < 1) by (rewrite <- exp_0; apply exp_increasing; exact Hx).
+    replace ptrop with (ptrop * 1) at 2 by ring. apply Rmult_lt_compat_l; lra. Qed.
+
+  Theorem stratosphere_decreasing (h1 h2 : R) : htrop < h1 -> h1 < h2 -> Pg h2 < Pg h1.
+  Proof. intros H1 H12.
+    destruct (stratosphere h1 H1) as (_ & E1 & _). destruct (stratosphere h2 ltac:(lra)) as (_ & E2 & _).
+    rewrite E1, E2. apply Rmult_lt_compat_l; [apply ptrop_pos | ]. apply exp_increasing.
+    assert (Hk : 0 < g0 / (Rg * Ttrop)) by (apply Rdiv_lt_0_compat; [lra | apply Rmult_lt_0_compat; unfold Ttrop; lra]).
+    replace (- g0 / (Rg * Ttrop) * (h2 - htrop)) with (- (g0 / (Rg * Ttrop)) * (h2 - htrop)) by (field; unfold Ttrop; lra).
+    replace (- g0 / (Rg * Ttrop) * (h1 - htrop)) with (- (g0 / (Rg * Ttrop)) * (h1 - htrop)) by (field; unfold Ttrop; lra).
+    assert (g0 / (Rg * Ttrop) * (h1 - htrop) < g0 / (Rg * Ttrop) * (h2 - htrop)) by (apply Rmult_lt_compat_l; lra).
+    lra. Qed.
 End Gen.
 
 (* ---- the hand model's constants ------------------------------------------------------------------ *)
@@ -224,3 +247,15 @@ Proof.
   destruct (Rle_dec _ _); apply Rmult_lt_0_compat; try apply exp_pos; auto.
   apply Rmult_lt_0_compat; auto; apply exp_pos.
 Qed.
+
+(* above 11 km the model's pressure keeps falling (it does not freeze at the tropopause value) *)
+Lemma isa_stratosphere (h : R) : @c_htrop RNum < h ->
+  @isa_temperature RNum h = @c_T0 RNum + @c_beta RNum * @c_htrop RNum /\ @isa_pressure RNum h < @isa_ptrop RNum.
+Proof. intros Hh.
+  destruct (stratosphere (@c_T0 RNum) (@c_p0 RNum) (@c_g0 RNum) (@c_R RNum) (@c_beta RNum) (@c_htrop RNum)
+              c_p0_pos c_g0_pos c_R_pos c_Ttrop_pos h Hh) as (A & _ & C).
+  split; [exact A | exact C]. Qed.
+
+Lemma isa_stratosphere_decreasing (h1 h2 : R) : @c_htrop RNum < h1 -> h1 < h2 ->
+  @isa_pressure RNum h2 < @isa_pressure RNum h1.
+Proof. apply stratosphere_decreasing; auto using c_T0_pos, c_p0_pos, c_g0_pos, c_R_pos, c_beta_neg, c_Ttrop_pos. Qed.
